@@ -494,6 +494,7 @@ func runC11(c *eng.Ctx) {
 	cr := &caseRunner{c: c, prop: "C11"}
 	defer func() {
 		runC11FailedCreation(c, cr)
+		RunPassthrough(c, cr.next)
 		if C11Concurrent != nil {
 			C11Concurrent(c, cr.next)
 		}
